@@ -195,3 +195,6 @@ META = dict(
     assumptions=["the unbounded 'for all n' is not claimed: a regression that rescans or recomputes history grows by >= 2 lines per candle and exceeds the slack (12 lines; measured variation between lengths is <= 4 lines) inside the bound", "older history is concrete: work depends on values only through branches on recent candles"],
     explanation="the solver's role is path completeness: the bound holds on every feasible branch pattern of the symbolic candles, not on sampled values",
 )
+
+# families added after the seeding rounds (kept next to the original bound so that MANIFEST / evidence stay current)
+META["bounds"] = dict(META["bounds"], quick=META["bounds"]["quick"] + "; added after the seeding rounds: " + "chained members on dotted inputs, analysis wrappers over an input with no reading at all and over Supertrend's long/short fields, Counters whose streak spans the flat history, two candles per append for every indicator class")
